@@ -26,7 +26,8 @@ def gen_case(r: apigen.Rng, idx: int):
         if r.maybe(): pair.reverse()
         bases = pair + [b for b in bases if b not in pair][:nfiles - 2]
     sub = r.maybe(0.3) and ver != ""
-    case = {"pkg": pkg, "ns": ns, "name": name, "version": ver, "files": [], "deps": r.maybe(0.5), "sub": None}
+    case = {"pkg": pkg, "ns": ns, "name": name, "version": ver, "files": [], "deps": r.maybe(0.5), "sub": None,
+            "prefix_dep": bool(ver) and ver in ("v1", "v2alpha") and r.maybe(0.05)}
     for i, b in enumerate(bases):
         case["files"].append({"base": b, "pkg": pkg, "messages": r.randint(0 if (i and not any(b in c for c in COLLIDING)) else 1, 2), "enum": r.maybe(0.3), "services": 0})
     case["files"][0]["services"] = r.randint(1, 2)
@@ -62,18 +63,30 @@ def build_files(case):
         dep = apigen.File("other/common/v1/shared.proto", "other.common.v1", deps=[])
         dep.msg("Shared").field("id")
         files.append(dep)
+    pdep = None
+    if case.get("prefix_dep"):
+        # a dependency-only file whose package merely BEGINS with the characters of the API package (`acme.lib.v1beta` next to
+        # `acme.lib.v1`): not a sub-package, so nothing may be emitted for it (findings/C11.json)
+        ppkg = case["pkg"] + "beta"
+        pdep = apigen.File("/".join(ppkg.split(".")) + "/legacy.proto", ppkg, deps=[])
+        pdep.msg("Legacy").field("id")
+        files.append(pdep)
     mcount = 0
     for i, fd in enumerate(case["files"]):
         path = "/".join(fd["pkg"].split(".")) + f"/{fd['base']}.proto"
         f = apigen.File(path, fd["pkg"])
         if dep is not None:
             f.dep(dep.name)
+        if pdep is not None:
+            f.dep(pdep.name)
         msgs = []
         for k in range(fd["messages"]):
             m = f.msg(f"Msg{mcount}"); mcount += 1
             m.field("name")
             if dep is not None and k == 0:
                 m.field("shared", "message", type_name=".other.common.v1.Shared")
+            if pdep is not None and k == 0 and i == 0:
+                m.field("legacy", "message", type_name="." + pdep.pb.package + ".Legacy")
             msgs.append(m)
         if fd["enum"]:
             f.enum(f"Kind{i}", [f"KIND{i}_UNSPECIFIED", f"KIND{i}_A"])
@@ -132,6 +145,8 @@ def oracle(ctx, case, res, files, targets, payload):
         mods = [n for n in names if n.startswith(tdir) and n != tdir + "__init__.py" and "/" not in n[len(tdir):]]
         ctx.notes.setdefault("types_modules_seen", 0)
     ntypes = [n for n in names if re.search(r"/types/[^/]+\.py$", n) and not n.endswith("__init__.py") and n.startswith(root + "/")]
+    if case.get("prefix_dep"):
+        ntypes = [n for n in ntypes if not n.endswith("/legacy.py")]      # reported above under its own key
     want_types = sum(1 for fd in case["files"])
     nonempty_types = sum(1 for fd in case["files"] if fd["messages"] or fd["enum"] or fd["services"])
     if not (nonempty_types <= len(ntypes) <= want_types):
@@ -149,6 +164,9 @@ def oracle(ctx, case, res, files, targets, payload):
     sdirs = sorted(set(re.search(r"/services/([^/]+)/", n).group(1) for n in names if re.search(r"/services/([^/]+)/", n) and n.startswith(root + "/")))
     if sdirs != sorted(to_snake_case(s) for s in svc_names):
         ctx.fail("service-packages", f"service packages {sdirs} for services {svc_names}", payload)
+    if case.get("prefix_dep") and any(n.split("/")[-1] == "legacy.py" for n in names):
+        ctx.fail("dependency-file-emitted:string-prefix-package", f"output for the dependency-only file legacy.proto of package {case['pkg']}beta: "
+                 f"{[n for n in names if n.endswith('/legacy.py')]}", payload)
     if any("shared" in n.split("/")[-1] or n.startswith("other/") for n in names):
         ctx.fail("dependency-file-emitted", f"output for a dependency-only file: {[n for n in names if 'shared' in n or n.startswith('other/')][:3]}", payload)
     for n in names:
@@ -325,6 +343,10 @@ def run_case(ctx, case, label):
 
 
 CORPUS = [
+    # a dependency-only file in `acme.lib.v1beta` next to the API package `acme.lib.v1` (open finding)
+    {"pkg": "acme.lib.v1", "ns": ["acme"], "name": "lib", "version": "v1", "deps": False, "sub": None, "override_name": None, "override_ns": None, "prefix_dep": True,
+     "files": [{"base": "lib", "pkg": "acme.lib.v1", "messages": 1, "enum": False, "services": 1}],
+     "opts": ["transport=grpc", "autogen-snippets=false"], "unknown": ["zzz=1"]},
     # two target files whose names sanitise to one module name, the dotted one second
     {"pkg": "acme.lib.v1", "ns": ["acme"], "name": "lib", "version": "v1", "deps": False, "sub": None, "override_name": None, "override_ns": None,
      "files": [{"base": "lib", "pkg": "acme.lib.v1", "messages": 1, "enum": False, "services": 1},
